@@ -169,6 +169,12 @@ def St.noteOrder (s : St) (ok : Bool) : St := if ok then s else { s with badOrd 
 
 def hasError (s : St) (d : DagRef) : Bool := d.nodes.any s.isErr                     -- __has_subgraph_error
 
+/-- `__get_subgraph_error`: the first error kept as a node's result in the DAG, in the graph's own node order -/
+def subgraphError (P : Program) (s : St) (d : DagRef) : Exc :=
+  match (P.g.order ++ d.nodes).find? (fun n => d.nodes.contains n && s.isErr n) with
+  | some n => (match s.get n with | .exc e => e | _ => default)
+  | none => default
+
 /-! ### tasks, conditions, events -/
 
 def St.setTask (s : St) (t : Nat) (tk : Task) : St := { s with tasks := s.tasks.set t tk }
@@ -290,7 +296,9 @@ def kwStep (P : Program) (s : St) (acc : KwRes) (e : Edge) : KwRes :=
   | .ok kw, none => .ok kw
   | .ok kw, some k =>
     if P.g.isSwitch e.u then
-      match s.sw e.u with
+      -- (fix: a switch that found no case inside a one-of scope keeps that error as its own result)
+      if s.isErr e.u then kwPut kw k (s.get e.u)
+      else match s.sw e.u with
       | some (_, c) => kwPut kw k (s.getHid c)
       | none => .err ⟨"Other:AttributeError", 0, 0, 0⟩
     else kwPut kw k (s.getHid e.u)
@@ -383,6 +391,13 @@ def dagLaunch (c : Ctx) (d : DagRef) (below : List Frame) : St → List Obs → 
     if ready c.P s d n then
       if d.isOneof && hasError s d then
         -- (fix e9268a6: the tasks started for this sub-DAG are no longer cancelled here)
+        -- (fix: the destination, which cannot be computed any more, gets the error of its dependency, so that a
+        -- consumer outside this sub-DAG — of a switch whose case it is, of a recurrent subgraph — learns of it)
+        let s := match d.dest with
+          | some dn =>
+            if s.exists dn then s
+            else notifyAll (s.setRes dn (.exc (subgraphError c.P s d))) ((c.P.g.desc1 dn).map Key.node)
+          | none => s
         let s := notifyAll s ((c.P.g.desc1 n).map Key.node)
         let s := notify s d.destKey
         retTo c s obs below .none
@@ -583,13 +598,31 @@ def switchSelect (P : Program) (s : St) (n : Node) : Option (Label × Node) :=
   | .str l => ((switchCases P n).filter (·.1 == l)).getLast?
   | _ => none
 
+/-- the error of a switch that selects nothing: the failure of its decision node if that is what the node's result is
+(it failed inside a one-of scope), else `SwitchDoesNotHaveCaseError` -/
+def switchError (P : Program) (s : St) (n : Node) : Exc :=
+  match switchLabel P s n with
+  | .exc x => x
+  | _ => ⟨"SwitchNoCase", n, 0, 0⟩
+
 /-- `_run_switch` entry (manager.py _add_case_result + reduced dag) -/
 def switchStart (c : Ctx) (s : St) (obs : List Obs) (d : DagRef) (n : Node) (below : List Frame) : Out :=
   match switchSelect c.P s n with
-  | none => raiseOut c (notify s .run) obs below (.exc ⟨"SwitchNoCase", n, 0, 0⟩)
+  | none =>
+    -- (fix: a decision node that failed inside a one-of scope has an exception object as its result: the switch fails
+    -- with that error — an exception is not a label)
+    let e : Exc := switchError c.P s n
+    if d.isOneof then
+      -- inside a one-of scope the error is kept as the switch node's result: the candidate fails, not the run
+      let s := s.setRes n (.exc e)
+      let s := notify s (.node n)
+      let s := notifyAll s ((c.P.g.desc1 n).map Key.node)
+      retTo c s obs below .none
+    else raiseOut c (notify s .run) obs below (.exc e)
   | some (l, cn) =>
     let s := openCand (s.setSw n (l, cn)) d.isOneof cn
-    match reducedRef c.P s c.P.g.input cn false d.isOneof false with
+    -- (fix: the sub-DAG of the case inherits both one-of flags of the DAG the switch node belongs to)
+    match reducedRef c.P s c.P.g.input cn false d.isOneof d.isNested with
     | none => raiseOut c s obs below (.exc ⟨"Other:NodeNotFound", 0, 0, 0⟩)
     | some sub => dagInit c s obs sub (.switchRet d n :: below)
 
